@@ -1723,6 +1723,26 @@ fn c12_step(b: &Built, g: &mut Inner, st: &mut State, from: usize, to: usize) {
                     }
                 }
             },
+            // (d') seen from the upstream: it is never told to stop while a sink that is attached to
+            // that very subscription is still there (whoever's detach triggered it)
+            (Role::Puppet(..), Dir::Up, Kind::Terminate | Kind::Error) => {
+                let left: Vec<EdgeId> =
+                    attached_at(ev.t_in).into_iter().filter(|x| share_upstream_of(g, *x) == Some(e)).collect();
+                bump(st, "c12.upstream-stop");
+                if !left.is_empty() && times(g, e).live_at(ev.t_in) {
+                    let label = g.edges[left[0]].label.clone();
+                    report(
+                        g,
+                        st,
+                        &["C12"],
+                        "upstream-disposed-while-sinks-attached",
+                        &op,
+                        e,
+                        i as i32,
+                        format!("{} (and {} more) is still attached to this upstream subscription", label, left.len() - 1),
+                    );
+                }
+            },
             // (d) upstream is disposed exactly when the last attached sink detaches
             (Role::Probe(_), Dir::Up, Kind::Terminate | Kind::Error) => {
                 let mine = share_upstream_of(g, e);
